@@ -1217,10 +1217,7 @@ class t2grid(object):
         for blk in self.blocklist:
             name = blk.name
             if name in blockmap:
-                del self.block[name]
-                mapped_name = blockmap[name]
-                self.block[mapped_name] = blk
-                blk.name = mapped_name
+                blk.name = blockmap[name]
             cons = set()
             for names in list(blk.connection_name):
                 con = []
@@ -1229,6 +1226,10 @@ class t2grid(object):
                     con.append(mapped_name)
                 cons.add(tuple(con))
             blk.connection_name = cons
+
+        # rebuild block dictionary, so overlapping (e.g. swapped) names lose no block:
+        self.block = {}
+        for blk in self.blocklist: self.block[blk.name] = blk
 
         self.connection = {}
         for con in self.connectionlist:
